@@ -208,6 +208,7 @@ import (
 	"encoding/json"
 	"fmt"
 	"os"
+	"runtime"
 	"sort"
 	"strings"
 	"testing"
@@ -258,6 +259,7 @@ func vRunCase(c vReplayCase) (outcome string) {
 }
 
 func TestVerifReplay(t *testing.T) {
+	runtime.GOMAXPROCS(1) // sync.Pool then behaves like the executor's LIFO model
 	raw, err := os.ReadFile(os.Getenv("VERIF_REPLAY"))
 	if err != nil {
 		t.Fatal(err)
@@ -338,6 +340,9 @@ func Replay(p *sym.Program, cases []ReplayCase) ([]ReplayOutcome, error) {
 	env = append(env, "GOFLAGS=-mod=mod", "GOPROXY=off", "GOSUMDB=off", "VERIF_REPLAY="+casesPath, "PATH="+nativePath())
 	cmd.Env = env
 	outB, runErr := cmd.CombinedOutput()
+	if os.Getenv("VERIF_VERBOSE") != "" {
+		os.Stderr.Write(outB)
+	}
 	outs := make([]ReplayOutcome, len(cases))
 	seen := 0
 	for _, line := range strings.Split(string(outB), "\n") {
